@@ -118,7 +118,7 @@ def recipes_for(built, plan, si=0):
         yield f'{key}|io={io}', r + modes.io_rules(io)
 
 
-def graph_cases(spec, extra=None, sigrev=False):
+def graph_cases(spec, extra=None, sigrev=False, sigrev_extra=None):
   """spec: list of (n_ops, type list, variants, exports-mode) -> case dicts."""
   for n, types, variants, exports in spec:
     alpha = eg.alphabet(types, variants)
@@ -136,4 +136,6 @@ def graph_cases(spec, extra=None, sigrev=False):
           c2 = {'ir': g2}
           if extra:
             c2.update(extra)
+          if sigrev_extra:
+            c2.update(sigrev_extra)
           yield c2
